@@ -579,8 +579,8 @@ void execute_c05(const Plan &plan, Verdict &v) {
                 if (!ok) pu.valid = false;
             }
             if (!pu.bad.empty()) {
-                static const char *frags_empty[] = {"@", " \"", " 1 2", ",1", "1,,2", "1,", "$", " 'x", "1 ,"};
-                static const char *frags_after[] = {"@", "$", ",", " ,", " \"", " 'x"};
+                static const char *frags_empty[] = {"@", " \"", " 1 2", ",1", "1,,2", "1,", "$", " 'x", "1 ,", " #15ab", "#210xyz", "1,#15a"};
+                static const char *frags_after[] = {"@", "$", ",", " ,", " \"", " 'x", ",#15ab", ", #210xyz"};
                 bool listed = false;
                 if (pu.items.empty())
                     for (auto f : frags_empty) listed |= pu.bad == f;
@@ -601,7 +601,7 @@ void execute_c05(const Plan &plan, Verdict &v) {
             const PlannedMsg &m = msgs[(size_t) call[ci2]];
             if (m.unit_idx.empty()) continue;
             const PlannedUnit &pu = run.units[(size_t) m.unit_idx.back()];
-            bool quote_frag = pu.bad == " \"" || pu.bad == " 'x";
+            bool quote_frag = pu.bad == " \"" || pu.bad == " 'x" || pu.bad.find('#') != std::string::npos;   // open string / incomplete block swallow what follows
             if (quote_frag && ci2 + 1 != call.size()) {
                 v.trace_hash = 2;
                 return;
@@ -850,10 +850,10 @@ void generate_c05(Rng &r, const GenOpts &g, Plan &p) {
                     p.ops.push_back(Op("p", {cls, wsb, wsa}, gen_lit(r, cls, avoid_dot)));
                 }
                 if (u == nu - 1 && r.chance(1, 8)) {
-                    static const char *frags_empty[] = {"@", " \"", " 1 2", ",1", "1,,2", "1,", "$", " 'x", "1 ,"};
-                    static const char *frags_after[] = {"@", "$", ",", " ,", " \"", " 'x"};
-                    std::string f = ni == 0 ? frags_empty[r.below(9)] : frags_after[r.below(6)];
-                    if ((f == " \"" || f == " 'x") && m != nm - 1) f = "@";
+                    static const char *frags_empty[] = {"@", " \"", " 1 2", ",1", "1,,2", "1,", "$", " 'x", "1 ,", " #15ab", "#210xyz", "1,#15a"};
+                    static const char *frags_after[] = {"@", "$", ",", " ,", " \"", " 'x", ",#15ab", ", #210xyz"};
+                    std::string f = ni == 0 ? frags_empty[r.below(12)] : frags_after[r.below(8)];
+                    if ((f == " \"" || f == " 'x" || f.find('#') != std::string::npos) && m != nm - 1) f = "@";
                     bool trailing = f == "1," || f == "," || f == " ," || f == "1 ,";
                     if (!(trailing && avoid_trailing)) p.ops.push_back(Op("bad", {}, f));
                 }
